@@ -60,6 +60,7 @@ type Session struct {
 	TokMethods func(tok interface{})              // if set: the convenience methods of every token argument are called (IDValue, Int64Value, ...)
 	Problems   []string                           // invariant violations noticed at call time
 	AfterFault int                                // calls made after the fault fired (must stay 0)
+	Deep       bool                               // RenderVal renders a node again from the values it holds instead of returning the text made when it was built
 }
 
 // Begin resets the per-operation state.
@@ -96,6 +97,17 @@ func (s *Session) RenderVal(x interface{}) string {
 	case *Node:
 		if v == nil {
 			return "nil-node"
+		}
+		if s.Deep {
+			parts := make([]string, len(v.Args))
+			for i, a := range v.Args {
+				parts[i] = s.RenderVal(a)
+			}
+			c := ""
+			if v.Ctx {
+				c = "c"
+			}
+			return Shorten("N" + strconv.Itoa(v.Alt) + c + "(" + strings.Join(parts, ",") + ")")
 		}
 		return v.str
 	case string:
